@@ -22,6 +22,8 @@ NUC_ATOMS = {
     "C": ["N1", "C2", "O2", "N3", "C4", "N4", "C5", "C6"],
     "U": ["N1", "C2", "O2", "N3", "C4", "O4", "C5", "C6"],
 }
+MODIFIED_NAMES = {"A": ["1MA", "6MZ", "A5", "RA", "ADE", "A2M"], "G": ["2MG", "M2G", "7MG", "OMG", "YYG", "GUA", "G3"],
+                  "C": ["5MC", "OMC", "CYT", "RC", "C5"], "U": ["PSU", "H2U", "5MU", "4SU", "URA", "U3"]}
 ODD_NAMES = ["H5''", "1H5'", "HO2'", "H2'", "HO5'", "CA", "CB", "N", "O", "OXT", "FE", "MG", "ZN", "NA", "K", "CL",
              "C5M", "O1P", "O2P", "H1", "H21", "H22", "2HN4", "S4", "SE"]
 
@@ -354,7 +356,7 @@ def decode_cif_atoms(text: str) -> List[dict]:
 
 
 def st_tables(max_models=3, max_chains=3, max_residues=5, max_atoms=8, altlocs=True, clashes=False,
-              hetero=True, realistic_nucleotides=False, wide=False):
+              hetero=True, realistic_nucleotides=False, wide=False, modified=False):
     """atom tables within PDB limits, built residue by residue"""
     from hypothesis import strategies as st
 
@@ -386,17 +388,21 @@ def st_tables(max_models=3, max_chains=3, max_residues=5, max_atoms=8, altlocs=T
                 if num > 9999:
                     break
                 prev_icode = icode
-                kind = draw(st.sampled_from(["nuc", "nuc", "nuc", "odd"] if hetero else ["nuc"]))
-                if kind == "nuc":
+                kind = draw(st.sampled_from((["nuc", "nuc", "nuc", "odd"] if hetero else ["nuc"]) + (["mod"] if modified else [])))
+                if kind in ("nuc", "mod"):
                     base = draw(st.sampled_from("ACGU"))
-                    resname = draw(st.sampled_from([base, base, "D" + base if base != "U" else "DT"]))
+                    if kind == "mod":
+                        # modified / force-field nucleotide names: the atoms of a standard base under a non-standard name
+                        resname = draw(st.sampled_from(MODIFIED_NAMES[base]))
+                    else:
+                        resname = draw(st.sampled_from([base, base, "D" + base if base != "U" else "DT"]))
                     pool = NUC_ATOMS["backbone"] + NUC_ATOMS[base]
                     if realistic_nucleotides:
                         names = list(pool)
                     else:
                         k = draw(st.integers(1, min(max_atoms, len(pool))))
                         names = draw(st.lists(st.sampled_from(pool), min_size=k, max_size=k, unique=True))
-                    record = "ATOM"
+                    record = "ATOM" if kind == "nuc" else draw(st.sampled_from(["HETATM", "ATOM"]))
                 else:
                     resname = draw(st.sampled_from(["HOH", "MG", "PSU", "5MC", "ALA", "GLY", "NA", "7MG", "OMG"]))
                     k = draw(st.integers(1, 4))
